@@ -510,7 +510,7 @@ HOOKS_W = ["pre_execute", "post_execute", "on_error", "post_save"]
 
 
 def gen_c03_spec(rng: random.Random, maxn: int = 40) -> Dict[str, Any]:
-    A = rng.choice([1, 1, 2, 2, 3, 4, 5])
+    A = rng.choice([1, 1, 2, 2, 3, 4, 5, 1, 2, 3, rng.choice([None, 0, -1])])  # None/0/-1: limit switched off
     n = rng.randint(5, maxn)
     ats = gen_arrivals(rng, n)
     msgs = []
@@ -533,9 +533,17 @@ def gen_c03_spec(rng: random.Random, maxn: int = 40) -> Dict[str, Any]:
         elif kind == "timeout":
             m["task"] = "t_async"
             m["beh"]["dur"] = [rng.choice([0.5, 1.0, "never"])]
-            m["timeout"] = rng.choice([0.05, 0.2])
+            m["timeout"] = rng.choice([0.05, 0.2, 0.05, 0.2, 0, 0.0])
+            if rng.random() < 0.3:
+                m["timeout_str"] = True
             if rng.random() < 0.6:
                 m["beh"]["cleanup"] = rng.choice([["y"], [0.05], [0.4], ["y", 0.2]])
+            if rng.random() < 0.15:
+                # a label that is not a number: the message fails (error result) without the body ever running
+                m.pop("timeout")
+                m.pop("timeout_str", None)
+                m["timeout_raw"] = rng.choice(["soon", "", "1s", "None"])
+                m["beh"]["dur"] = [rng.choice([0.5, 1.0])]
         elif kind in ("malformed", "unknown"):
             m["kind"] = kind
             m["variant"] = rng.randint(0, 12)
@@ -553,7 +561,7 @@ def gen_c03_spec(rng: random.Random, maxn: int = 40) -> Dict[str, Any]:
         msgs.append(m)
     t_probe = (ats[-1] if ats else 0.0) + 0.5
     probe_toks = []
-    for j in range(A + 2):
+    for j in range((A if A and A > 0 else 2) + 2):
         tok = f"p{j}"
         probe_toks.append(tok)
         msgs.append({"at": t_probe, "tok": tok, "task": "t_async", "beh": {"dur": [10.0], "out": "ok"}})
@@ -569,8 +577,10 @@ def gen_c03_spec(rng: random.Random, maxn: int = 40) -> Dict[str, Any]:
     }
     if mw:
         spec["mws"] = [mw]
-    spec["horizon"] = est_horizon(spec) + 10 * (A + 2)
-    if rng.random() < 0.1:
+    if not A or A < 0:
+        spec["cfg"]["threads"] = len(msgs) + 2  # no limit: every sync function may hold a thread at the same time
+    spec["horizon"] = est_horizon(spec) + 10 * ((A if A and A > 0 else 2) + 2)
+    if rng.random() < 0.1 and A:
         spec["via"] = "api"  # taskiq.api.run_receiver_task (never returns: judged at the horizon)
         spec["end_stream"] = False
     return spec
@@ -580,7 +590,8 @@ class C03(WorkerCheck):
     pid = "C03"
     rule = ("Scenario = history of 5-40 messages with outcomes {ok, raise, timeout, no-result, malformed, unknown "
             "task, backend failure, raising pre_execute/post_execute/on_error/post_save hook} (one outcome made "
-            "dominant so it occurs >= limit times), limit A in 1..5, prefetch 0..3, followed by a saturation probe "
+            "dominant so it occurs >= limit times; timeout labels as number or string, zero, or not a number), limit A in "
+            "1..5 or switched off (None/0/-1), prefetch 0..3, followed by a saturation probe "
             "(A+2 ten-second tasks, then short ones), stream end. Oracle: #messages in processing <= A at every "
             "event; A=1 => disjoint and in delivery order; probe reaches exactly A concurrent tasks; every valid "
             "message executes; listen() returns (no stall/deadlock). Non-trivial: history contains >=1 non-ok "
@@ -597,9 +608,10 @@ class C03(WorkerCheck):
     def judge(self, rr: RunResult, spec: Dict[str, Any], cr: CaseResult) -> None:
         v, stats = O.oracle_c03(rr, spec)
         cr.violations += v
-        if stats["probe_max"] == spec["cfg"]["A"]:
+        A = spec["cfg"]["A"]
+        if stats["probe_max"] == (A if A and A > 0 else len(spec["_probe_toks"])):
             cr.counters["probe_saturated"] += 1
-        cr.counters[f"limit_{spec['cfg']['A']}"] += 1
+        cr.counters[f"limit_{A}"] += 1
 
     def nontrivial(self, rr: RunResult, spec: Dict[str, Any]) -> bool:
         return any(e["k"] in ("set_fail", "cb_raise") or (e["k"] == "task_end" and e.get("how") != "return")
